@@ -30,6 +30,9 @@ Advance(c, trk, call, o) ==
   CASE call.op = "load" -> [trk EXCEPT !.loaded = IF o.k = "ok" THEN "bi" ELSE "none"]
     [] call.op \in {"tags", "module_tags"} ->
          IF o.k = "unit" THEN SetIt(trk, call.it, [kind |-> call.op, k |-> 0, cp |-> FALSE, dead |-> FALSE]) ELSE trk
+    [] call.op \in {"efi_areas", "elf_sections", "elf_sections_deprecated"} ->
+         IF o.k = "unit" THEN SetIt(trk, call.it, [kind |-> IF call.op = "efi_areas" THEN "efi" ELSE "elf",
+                                                  k |-> 0, cp |-> FALSE, dead |-> FALSE]) ELSE trk
     [] call.op = "clone" ->
          IF o.k = "unit" /\ HasIt(trk, call.it) THEN SetIt(trk, call.to, ItOf(trk, call.it)) ELSE trk
     [] call.op = "next" ->
@@ -232,6 +235,47 @@ C03_InfoRead(c, trk, call, o) ==
   ELSE EffGet(c.mem, KindOfCall(call)).k = "panic" /\ FindSpec(InfoWalk(c.mem), InfoKind(KindOfCall(call)).id).k = "panic"
        => o.k = "panic"
 
+\* ---- C18 / C19: iterators driven by stored strides and counts ------------------------------------
+NoExt == [k |-> "none"]
+ExtOf(c) == IF Has(c, "ext") THEN [k |-> "ext", addr |-> c.ext.addr, data |-> c.ext.data] ELSE NoExt
+\* creating the iterator: the tag must be there; an invalid map / non-fitting section table is
+\* rejected here or at the first iterator call
+AcceptIterNew(c, kind, valid, o) ==
+  LET g == EffGet(c.mem, kind) IN
+  CASE g.k = "absent" -> o.k = "none"
+    [] g.k = "panic" -> o.k = "panic"
+    [] g.k = "freeabsent" -> o.k \in {"panic", "none"}
+    [] OTHER -> IF valid THEN o.k = "unit" ELSE o.k \in {"panic", "unit"}
+EfiIt(c) == EffGet(c.mem, "efi_mmap").it
+ElfIt(c) == EffGet(c.mem, "elf").it
+HasTagIt(c, kind) == EffGet(c.mem, kind).k \in {"must", "free"}
+C18_Accept(c, trk, call, o) ==
+  CASE call.op = "efi_areas" ->
+         IF trk.loaded # "bi" THEN o.k = "skipped"
+         ELSE AcceptIterNew(c, "efi_mmap", HasTagIt(c, "efi_mmap") /\ EfiValid(EfiParams(c.mem, EfiIt(c))), o)
+    [] call.op \in {"next", "len", "size_hint"} /\ HasIt(trk, call.it) /\ ItOf(trk, call.it).kind = "efi" ->
+         LET s == ItOf(trk, call.it) IN
+         IF ~HasTagIt(c, "efi_mmap") THEN FALSE      \* an iterator over a tag that is not there
+         ELSE (CASE call.op = "next" -> AcceptEfiNext(c.mem, EfiIt(c), s.k, s.dead, o)
+                 [] call.op = "len" -> AcceptEfiLen(c.mem, EfiIt(c), s.k, s.dead, o)
+                 [] OTHER -> AcceptEfiHint(c.mem, EfiIt(c), s.k, s.dead, o))
+    [] OTHER -> TRUE
+C19_Accept(c, trk, call, o) ==
+  CASE call.op = "elf_sections" ->
+         IF trk.loaded # "bi" THEN o.k = "skipped"
+         ELSE AcceptIterNew(c, "elf", HasTagIt(c, "elf") /\ ElfFits(ElfParams(c.mem, ElfIt(c))), o)
+    [] call.op = "elf_sections_deprecated" ->      \* the deprecated getter may reject more (its own partial bound)
+         IF trk.loaded # "bi" THEN o.k = "skipped"
+         ELSE AcceptIterNew(c, "elf", FALSE, o)
+    [] call.op = "next" /\ HasIt(trk, call.it) /\ ItOf(trk, call.it).kind = "elf" ->
+         LET s == ItOf(trk, call.it) IN
+         IF ~HasTagIt(c, "elf") THEN FALSE
+         ELSE AcceptElfNext(c.mem, ElfIt(c), ExtOf(c), s.k, s.dead, o)
+    [] OTHER -> TRUE
+\* calls on an iterator that was never created are recorded as skipped
+C_Skipped(c, trk, call, o) ==
+  (call.op \in {"next", "len", "size_hint", "clone"} /\ ~HasIt(trk, call.it)) => o.k = "skipped"
+
 \* ---- C01: never outside the region, never a crash, references inside the owning tag ------------
 InfoOps == {"load", "tags", "module_tags", "efi_areas", "elf_sections", "elf_sections_deprecated", "next", "clone",
             "len", "size_hint", "get", "field", "str", "area", "dbg", "elf_field", "elf_name"}
@@ -327,15 +371,41 @@ DesignStep(c, ds, call) ==
     [] call.op \in {"tags", "module_tags"} ->
          IF ds.loaded # "bi" THEN [o |-> Skipped, ds |-> ds]
          ELSE [o |-> Unit, ds |-> DsSetIt(ds, call.it, [kind |-> call.op, cur |-> 8, end |-> U32At(c.mem, 0), dead |-> FALSE])]
+    [] call.op \in {"efi_areas", "elf_sections", "elf_sections_deprecated"} ->
+         IF ds.loaded # "bi" THEN [o |-> Skipped, ds |-> ds]
+         ELSE LET kind == IF call.op = "efi_areas" THEN "efi_mmap" ELSE "elf"
+                  g == DesignEffGet(c.mem, kind) IN
+              CASE g.k = "absent" -> [o |-> None, ds |-> ds]
+                [] g.k = "panic" -> [o |-> Panic, ds |-> ds]
+                [] OTHER ->
+                     LET r == IF kind = "efi_mmap" THEN DesignEfiNew(c.mem, g.it) ELSE DesignElfNew(c.mem, g.it) IN
+                     IF r.k = "panic" THEN [o |-> Panic, ds |-> ds]
+                     ELSE [o |-> Unit, ds |-> DsSetIt(ds, call.it,
+                              IF kind = "efi_mmap" THEN [kind |-> "efi", tag |-> g.it, st |-> [i |-> 0, entries |-> r.v.entries, d |-> r.v.d]]
+                              ELSE [kind |-> "elf", tag |-> g.it, p |-> r.v, st |-> [i |-> 0]])]
     [] call.op = "clone" ->
          IF ~DsHasIt(ds, call.it) THEN [o |-> Skipped, ds |-> ds]
          ELSE [o |-> Unit, ds |-> DsSetIt(ds, call.to, ds.its[call.it])]
     [] call.op = "next" ->
          IF ~DsHasIt(ds, call.it) THEN [o |-> Skipped, ds |-> ds]
-         ELSE LET s == ds.its[call.it]
-                  r == IF s.kind = "tags" THEN DesignTagNext(c.mem, s.end, s.cur, s.dead)
-                       ELSE DesignModNext(c.mem, s.end, s.cur, s.dead) IN
-              [o |-> r.o, ds |-> DsSetIt(ds, call.it, [s EXCEPT !.cur = r.cur, !.dead = r.dead])]
+         ELSE LET s == ds.its[call.it] IN
+              CASE s.kind = "efi" ->
+                     LET r == DesignEfiNext(c.mem, s.tag, s.st) IN
+                     [o |-> r.o, ds |-> DsSetIt(ds, call.it, [s EXCEPT !.st = r.st])]
+                [] s.kind = "elf" ->
+                     LET r == DesignElfNext(c.mem, s.tag, s.p, s.st) IN
+                     [o |-> r.o, ds |-> DsSetIt(ds, call.it, [s EXCEPT !.st = r.st])]
+                [] OTHER ->
+                     LET r == IF s.kind = "tags" THEN DesignTagNext(c.mem, s.end, s.cur, s.dead)
+                              ELSE DesignModNext(c.mem, s.end, s.cur, s.dead) IN
+                     [o |-> r.o, ds |-> DsSetIt(ds, call.it, [s EXCEPT !.cur = r.cur, !.dead = r.dead])]
+    [] call.op \in {"len", "size_hint"} ->
+         IF ~DsHasIt(ds, call.it) THEN [o |-> Skipped, ds |-> ds]
+         ELSE LET s == ds.its[call.it] IN
+              IF s.kind = "efi" THEN
+                 LET rem == U64Bytes(s.st.entries - s.st.i) IN
+                 [o |-> IF call.op = "len" THEN Val(rem) ELSE [k |-> "hint", lo |-> rem, hi |-> Some(rem)], ds |-> ds]
+              ELSE [o |-> Unit, ds |-> ds]
     [] IsInfoRead(call) ->
          [o |-> IF ds.loaded = "bi" THEN DesignInfoRead(c.mem, call) ELSE Skipped, ds |-> ds]
     [] call.op = "dbg" ->      \* Debug formatting: only the outcome class is specified (C01: controlled)
@@ -352,6 +422,8 @@ AcceptP(p, c, trk, call, o) ==
     [] p = "C15" -> C15_Accept(c, trk, call, o)
     [] p = "C17" -> C17_Accept(c, trk, call, o)
     [] p = "C14" -> C14_Accept(c, trk, call, o)
+    [] p = "C18" -> C18_Accept(c, trk, call, o)
+    [] p = "C19" -> C19_Accept(c, trk, call, o)
     [] OTHER -> TRUE
 
 Violated(c, trk, call, o) == {p \in Props : ~AcceptP(p, c, trk, call, o)}
